@@ -1,0 +1,64 @@
+//go:build verif
+
+// Package verifhook provides named yield points for external verification
+// harnesses. With the "verif" build tag a harness can register a handler per
+// point (count, block until released, sleep, record).
+package verifhook
+
+import (
+	"sync"
+	"sync/atomic"
+)
+
+var (
+	mu       sync.RWMutex
+	handlers = map[string]func(kv ...any){}
+	hits     sync.Map // name -> *atomic.Int64
+)
+
+// Set installs (or with nil removes) the handler of a point.
+func Set(name string, h func(kv ...any)) {
+	mu.Lock()
+	defer mu.Unlock()
+	if h == nil {
+		delete(handlers, name)
+		return
+	}
+	handlers[name] = h
+}
+
+// Reset removes all handlers and hit counters.
+func Reset() {
+	mu.Lock()
+	handlers = map[string]func(kv ...any){}
+	mu.Unlock()
+	hits.Range(func(k, _ any) bool { hits.Delete(k); return true })
+}
+
+// Hits returns how often a point was reached.
+func Hits(name string) int64 {
+	if v, ok := hits.Load(name); ok {
+		return v.(*atomic.Int64).Load()
+	}
+	return 0
+}
+
+func fire(name string, kv ...any) {
+	v, ok := hits.Load(name)
+	if !ok {
+		v, _ = hits.LoadOrStore(name, new(atomic.Int64))
+	}
+	v.(*atomic.Int64).Add(1)
+	mu.RLock()
+	h := handlers[name]
+	mu.RUnlock()
+	if h != nil {
+		h(kv...)
+	}
+}
+
+// Point marks a named yield point.
+func Point(name string) { fire(name) }
+
+// Note reports a named event with optional key/value details.
+func Note(name string, kv ...any) { fire(name, kv...) }
